@@ -26,6 +26,7 @@ import (
 
 	"tunnox-core/internal/app/server"
 	"tunnox-core/internal/cloud/repos"
+	"tunnox-core/internal/core/storage"
 	"tunnox-core/internal/core/storage/memory"
 	"tunnox-core/internal/core/types"
 	"tunnox-core/internal/packet"
@@ -41,7 +42,7 @@ const (
 	evMsg      = 0  // k cid new key chal tunnel   handshake message on connection k (see msgOf)
 	evBan      = 1  // a       BruteForceProtector.BanIP
 	evUnban    = 2  // a       BruteForceProtector.UnbanIP
-	evBlack    = 3  // a       IPManager.AddToBlacklist
+	evBlack    = 3  // a [perm] IPManager.AddToBlacklist (perm=1: permanent entry, else 1 h)
 	evUnblack  = 4  // a       IPManager.RemoveFromBlacklist
 	evExpire   = 5  // x       credentials of client x expire (ExpiresAt moved into the past)
 	evDelete   = 6  // x       CloudControl.DeleteClient
@@ -52,6 +53,10 @@ const (
 	evRegister = 11 //         out-of-band registration of a new client (GenerateAnonymousCredentials)
 	evBadJSON  = 12 // k       handshake packet whose payload is not JSON
 	evDelAnon  = 13 // x       CloudControl.DeleteAnonymousClient (the anonymous service's own delete)
+	evRestart  = 15 // l       the server process is restarted: every component is rebuilt over the SAME storage (new fixture), all
+	//                         connections are dropped; l = a+1: just before, a 25 ms blacklist entry for address a was added and lapsed
+	evBlackC   = 16 // a perm  IPManager.AddToBlacklist("<ip>/32") (CIDR form), perm=1: permanent, else 1 h
+	evUnblackC = 17 // a       IPManager.RemoveFromBlacklist("<ip>/32")
 	evCorrupt  = 14 // x kind  the stored credential (ClientConfig.SecretKeyEncrypted) of client x becomes unusable:
 	//                         0 "" (unmigrated legacy record) | 1 not base64 | 2 base64 but not decryptable |
 	//                         3 sealed under another master key | 4 base64 shorter than a nonce
@@ -130,7 +135,10 @@ type world struct {
 	secrets []string   // index 1.. ("" = plaintext never seen by the harness)
 	chals   []string   // index 1..
 	rateOff bool
-	viol    []viol
+	// specification bookkeeping of the blacklist (never read back from the server): survives a restart
+	blackIP   map[int]bool
+	blackCidr map[int]bool
+	viol      []viol
 }
 
 type viol struct {
@@ -164,6 +172,7 @@ type caseOut struct {
 var fx *server.VerifFixture
 var cfgRepo *repos.ClientConfigRepository
 var otherSKM *security.SecretKeyManager
+var theStorage storage.Storage
 var caseSeq int
 
 func hm(secret, chal string) string {
@@ -406,7 +415,7 @@ func (w *world) msgStep(step int, op []int, o *stepObs, out *caseOut) {
 		ip := w.addrs[c.addr]
 		b, _ := fx.BruteForce.IsBanned(ip)
 		ok, _ := fx.IPManager.IsAllowed(ip)
-		gated = b || !ok
+		gated = b || !ok || w.blackIP[c.addr] || w.blackCidr[c.addr]
 		// bind the monitor state to the ControlConnection object
 		if preSnap[k].cc != c.cc {
 			c.cc, c.proved, c.live = preSnap[k].cc, 0, ""
@@ -605,8 +614,15 @@ func (w *world) msgStep(step int, op []int, o *stepObs, out *caseOut) {
 	w.invariants(step)
 }
 
-// state predicate after every event: authenticated => proved; registry respects proofs
+// state predicate after every event: authenticated => proved; registry respects proofs; blacklisted => refused
 func (w *world) invariants(step int) {
+	for a, ip := range w.addrs {
+		if w.blackIP[a] || w.blackCidr[a] {
+			if ok, _ := fx.IPManager.IsAllowed(ip); ok {
+				w.v(step, "blacklist-gate-lost", "address %d is blacklisted (ip entry %v, cidr entry %v) but IPManager.IsAllowed says yes", a, w.blackIP[a], w.blackCidr[a])
+			}
+		}
+	}
 	for k, c := range w.conns {
 		cc := fx.Session.GetControlConnection(c.id)
 		if cc != c.cc {
@@ -684,7 +700,7 @@ func runCase(raw json.RawMessage) interface{} {
 	var in caseIn
 	must(json.Unmarshal(raw, &in))
 	caseSeq++
-	w := &world{conns: map[int]*hconn{}, addrs: map[int]string{}, clients: []*hclient{nil}, secrets: []string{""}, chals: []string{""}}
+	w := &world{blackIP: map[int]bool{}, blackCidr: map[int]bool{}, conns: map[int]*hconn{}, addrs: map[int]string{}, clients: []*hclient{nil}, secrets: []string{""}, chals: []string{""}}
 	out := &caseOut{}
 	for i, op := range in.Ops {
 		o := stepObs{}
@@ -696,9 +712,38 @@ func runCase(raw json.RawMessage) interface{} {
 		case evUnban:
 			fx.BruteForce.UnbanIP(w.ip(op[1]))
 		case evBlack:
-			must(fx.IPManager.AddToBlacklist(w.ip(op[1]), time.Hour, "verif", "verif"))
+			d := time.Hour
+			if len(op) > 2 && op[2] == 1 {
+				d = 0
+			}
+			must(fx.IPManager.AddToBlacklist(w.ip(op[1]), d, "verif", "verif"))
+			w.blackIP[op[1]] = true
 		case evUnblack:
 			fx.IPManager.RemoveFromBlacklist(w.ip(op[1]))
+			w.blackIP[op[1]] = false
+		case evBlackC:
+			d := time.Hour
+			if len(op) > 2 && op[2] == 1 {
+				d = 0
+			}
+			must(fx.IPManager.AddToBlacklist(w.ip(op[1])+"/32", d, "verif", "verif"))
+			w.blackCidr[op[1]] = true
+		case evUnblackC:
+			fx.IPManager.RemoveFromBlacklist(w.ip(op[1]) + "/32")
+			w.blackCidr[op[1]] = false
+		case evRestart:
+			if op[1] > 0 {
+				must(fx.IPManager.AddToBlacklist(w.ip(op[1]-1), 25*time.Millisecond, "verif-short", "verif"))
+				time.Sleep(70 * time.Millisecond)
+				w.blackIP[op[1]-1] = false
+			}
+			for k, c := range w.conns {
+				_ = fx.Session.CloseConnection(c.id)
+				delete(w.conns, k)
+			}
+			fx.Close()
+			newFixture()
+			w.rateOff = false
 		case evExpire:
 			if op[1] >= 1 && op[1] < len(w.clients) && !w.clients[op[1]].deleted {
 				w.expire(op[1])
@@ -785,6 +830,7 @@ func runCase(raw json.RawMessage) interface{} {
 		fx.BruteForce.UnbanIP(ip)
 		fx.BruteForce.RecordSuccess(ip)
 		fx.IPManager.RemoveFromBlacklist(ip)
+		fx.IPManager.RemoveFromBlacklist(ip + "/32")
 	}
 	if w.rateOff {
 		fx.RateLimiter.SetIPRateLimit(1000000, 1000000)
@@ -809,19 +855,25 @@ func gen() {
 	fmt.Printf("Definition T_HandshakeResp : N := %d.\n", byte(packet.HandshakeResp))
 }
 
-func main() {
+// newFixture builds every server component anew over the one storage of this process (= a server restart)
+func newFixture() {
 	var err error
-	ctx := context.Background()
-	fx, err = server.VerifNewFixture(ctx, memory.New(ctx), server.VerifFixtureOptions{})
+	fx, err = server.VerifNewFixture(context.Background(), theStorage, server.VerifFixtureOptions{})
 	must(err)
 	cfgRepo = repos.NewClientConfigRepository(fx.Repo)
+	fx.RateLimiter.SetIPRateLimit(1000000, 1000000)
+}
+
+func main() {
+	var err error
+	theStorage = memory.New(context.Background())
+	newFixture()
 	ok := make([]byte, 32)
 	for i := range ok {
 		ok[i] = byte(200 - i*5)
 	}
 	otherSKM, err = security.NewSecretKeyManager(&security.SecretKeyConfig{MasterKey: base64.StdEncoding.EncodeToString(ok)})
 	must(err)
-	fx.RateLimiter.SetIPRateLimit(1000000, 1000000)
 	if len(os.Args) > 1 && os.Args[1] == "gen" {
 		gen()
 		return
